@@ -267,12 +267,19 @@ def r3_hull(c, facts):
     for q, want, other in (('oal_model::grammar::NodeRef::start', 'NodeRef::children', 'NodeRef::reverse_children'),
                            ('oal_model::grammar::NodeRef::end', 'NodeRef::reverse_children', 'NodeRef::children')):
         fn = c.anchor(R, q)
-        if P.call_blocks(fn, want) and not P.call_blocks(fn, other):
+        # the descent may sit in a closure (`leaf().or_else(|| self.children().find_map(..))`)
+        fam = [fn] + facts.closures_of(fn)
+        if any(P.call_blocks(f2, want) for f2 in fam) and not any(P.call_blocks(f2, other) for f2 in fam):
             c.ok(R, {q.split('::')[-1]: 'descends through ' + want.split('::')[-1]})
         else:
             c.bad(R, '%s:direction' % q.split('::')[-1], '%s no longer descends through %s' % (q, want))
         # recursion on the same function through find_map
-        rec = any(P.call_blocks(cl, q.split('::')[-2] + '::' + q.split('::')[-1]) for cl in facts.closures_of(fn))
+        allcl = list(facts.closures_of(fn))
+        for cl in list(allcl):
+            allcl += [x for x in facts.closures_of(cl) if x not in allcl]
+        rec = any(P.call_blocks(cl, q.split('::')[-2] + '::' + q.split('::')[-1]) for cl in allcl)
+        # (a reference to the method passed as a function item, `find_map(NodeRef::start)`, counts as well)
+        rec = rec or any(q in (pf if isinstance(pf, str) else pf.get('def', '')) or (pf if isinstance(pf, str) else pf.get('def', '')).endswith('::'.join(q.split('::')[-2:])) for f2 in [fn] + allcl for pf in (f2.d.get('promoted_fns') or []))
         if rec:
             c.ok(R, {q.split('::')[-1]: 'recurses into the child found'})
         else:
